@@ -28,22 +28,40 @@ impl Vector<f64> {
     /// Return the L2 norm: square root of the sum of the squares
     #[inline]
     pub fn norm_2(&self) -> f64 {
+        // Very large or very small elements are scaled by a power of two (exact), so that
+        // the squares neither overflow nor underflow
+        let scale = self.pow2_scale();
         let mut result = 0.0;
         for i in 0..self.size() {
-            result += f64::powf( self.vec[i].abs(), 2.0 );
+            result += f64::powf( ( self.vec[i] * scale ).abs(), 2.0 );
         }
-        f64::sqrt( result )
+        f64::sqrt( result ) / scale
+    }
+
+    // Power of two that brings the largest finite element close to 1 when it is extreme
+    #[inline]
+    fn pow2_scale(&self) -> f64 {
+        let mut max: f64 = 0.0;
+        for i in 0..self.size() {
+            if self.vec[i].abs() > max && self.vec[i].is_finite() { max = self.vec[i].abs(); }
+        }
+        // Nothing to do in the range where powers up to the 8th stay representable
+        if max == 0.0 || ( max < 1.0e30 && max > 1.0e-30 ) { return 1.0; }
+        let exponent = max.log2().floor().clamp( -1000.0, 1000.0 ) as i32;
+        f64::powi( 2.0, -exponent )
     }
 
     /// Return the Lp norm: p-th root of the sum of the absolute values 
     /// raised to the power p
     #[inline]
     pub fn norm_p(&self, p: f64 ) -> f64 {
+        // Same exact scaling as in norm_2: the p-th powers must not overflow or underflow
+        let scale = self.pow2_scale();
         let mut result = 0.0;
         for i in 0..self.size() {
-            result += f64::powf( self.vec[i].abs(), p );
+            result += f64::powf( ( self.vec[i] * scale ).abs(), p );
         }
-        f64::powf( result, 1.0/p )
+        f64::powf( result, 1.0/p ) / scale
     }
 
     /// Return the Inf norm: largest absolute value element (p -> infinity)
